@@ -604,9 +604,9 @@ Section Evaluator.
           | _ => rt_error (expr_token iter)
           end
         end
-      | SBreak _ => fail (Sig SigBreak)
-      | SContinue _ => fail (Sig SigContinue)
-      | SNext _ => fail (Sig SigNext)
+      | SBreak t => note_signal t ;;; fail (Sig SigBreak)
+      | SContinue t => note_signal t ;;; fail (Sig SigContinue)
+      | SNext t => note_signal t ;;; fail (Sig SigNext)
       | SExit _ => fail (Sig SigExit)
       end
     end
